@@ -51,7 +51,7 @@ class NSModel(object):
 class C10(Machine):
     name = "c10"
     property_id = "C10"
-    runs = {"quick": 40000, "thorough": 2000000}
+    runs = {"quick": 40000, "thorough": 1500000}
     batch = 250
     rule = ("seeded histories (5-60 steps) of add/new/require/remove/discard/del/sort/reverse/clear/relabel/mutability/copy "
             "operations on a namespace and its copies; distinct = operation-name sequences containing a removal or reordering "
@@ -71,7 +71,7 @@ class C10(Machine):
                "remove", "remove", "remove_nonmember", "remove_label", "discard_label", "delitem", "sort", "reverse", "clear",
                "relabel", "relabel", "toggle_mutable", "copy", "deepcopy", "construct", "clone0", "clone1", "clone2", "query", "query"]
         steps = []
-        for _ in range(rng.randint(5, 60)):
+        for _ in range(rng.randint(5, 150 if tier == "thorough" else 60)):
             op = rng.choice(ops)
             steps.append({"op": op, "ns": rng.randrange(8), "i": rng.randrange(1000), "j": rng.randrange(1000),
                           "label": rng.choice(LABELS), "labels": [rng.choice(LABELS) for _ in range(rng.randint(0, 3))],
